@@ -23,6 +23,6 @@ Extraction "../ocaml/gen/wrap_model.ml"
   json_of_image wrap_json wrap_json_text print_json parse_json well_formed json_get jfield jindex jkeys utf8_valid
   json_text_ok drop_member k_resources
   (* third round: the `resources` member *)
-  json_of_image_full wrap_json_full json_resources json_resources_member acc_resources jwalk JRES_DEPTH json_text_full_ok
+  json_of_image_full wrap_json_full json_resources json_directory json_dir_entry json_resources_member acc_resources jwalk JRES_DEPTH json_text_full_ok
   Resources.root Resources.fsck_budget Resources.entries Resources.e_name Resources.e_entry Resources.rsrc_type Resources.decode_utf16
   jentries jdepth.
